@@ -17,7 +17,7 @@ Section Closure.
     c_ret : forall A (a : A), P (ret a);
     c_bind : forall A B (m : M A) (f : A -> M B), P m -> (forall a, P (f a)) -> P (bind m f);
     c_get : P get;
-    c_fail : forall A e, P (@fail A e);
+    c_fail : forall A pa tn v src, P (@fail A (EValue pa tn v src));   (* the decoder itself raises value errors only *)
     c_internal : forall A k, P (@internal_ A k);
     c_fuel : forall A, P (@fuel_ A);
     c_sev : forall pa t, P (emit (sev pa t));
